@@ -527,9 +527,6 @@ def main(check, argv=None):
                 return 1
             print('no violation')
             return 0
-        if args.parts:
-            pre = args.parts.split(',')
-            parts = [p for p in parts if any(p.name.startswith(x) for x in pre)]
         workdir = os.path.join(env.VERIF, '.work', '%s-%d' % (prop, os.getpid()))
         shutil.rmtree(workdir, ignore_errors=True)
         os.makedirs(workdir)
@@ -567,6 +564,9 @@ def main(check, argv=None):
                         lines.append('VIOLATION property=%s replay=%s' % (prop, path))
                         nviol += 1
         # 2. search
+        if args.parts:
+            pre = args.parts.split(',')
+            parts = [p for p in parts if any(p.name.startswith(x) for x in pre)]
         total, per_part, errors = run_parts(check, parts, findings, args.tier, seed, workdir)
         shutil.rmtree(workdir, ignore_errors=True)
         if errors:
